@@ -77,21 +77,24 @@ func (t *tree) doRemove(
 		// needed.
 		bitLength := bitDepth + n.LabelBitLength
 
-		var changed bool
-		var existing []byte
+		var child **node.Pointer
 		if key.BitLength() < bitLength {
 			// Lookup key is too short for the current n.Label, so it doesn't exist.
 			return ptr, false, nil, nil
 		} else if key.BitLength() == bitLength {
-			n.LeafNode, changed, existing, err = t.doRemove(ctx, n.LeafNode, bitLength, key)
+			child = &n.LeafNode
 		} else if key.GetBit(bitLength) {
-			n.Right, changed, existing, err = t.doRemove(ctx, n.Right, bitLength, key)
+			child = &n.Right
 		} else {
-			n.Left, changed, existing, err = t.doRemove(ctx, n.Left, bitLength, key)
+			child = &n.Left
 		}
+		newChild, changed, existing, err := t.doRemove(ctx, *child, bitLength, key)
 		if err != nil {
+			// The child must stay in place: the node may be a clean (cached) one and nothing below
+			// it has been removed.
 			return nil, false, existing, err
 		}
+		*child = newChild
 
 		// Fetch and check the remaining children.
 		var remainingLeaf node.Node
